@@ -125,7 +125,7 @@ func Gen(t *rapid.T, o Options) Model {
 	}
 	nc := rapid.IntRange(1, o.MaxClasses).Draw(t, "nClasses")
 	if o.Quotes {
-		o.Quotes = rapid.IntRange(0, 5).Draw(t, "quotedModel") == 0
+		o.Quotes = rapid.IntRange(0, 5).Draw(t, "quotedModel") == 5
 	}
 	// shape 0: any call target; 1: only later methods (acyclic, so that call trees can fit a budget)
 	shape := rapid.IntRange(0, 2).Draw(t, "shape")
@@ -134,7 +134,7 @@ func Gen(t *rapid.T, o Options) Model {
 	for i := 0; i < nc; i++ {
 		pkg := rapid.SampledFrom(pkgs).Draw(t, "pkg")
 		name := fmt.Sprintf("C%d", i)
-		if o.Quotes && rapid.IntRange(0, 3).Draw(t, "q") == 0 {
+		if o.Quotes && rapid.IntRange(0, 3).Draw(t, "q") == 3 {
 			name = name + "\"q"
 		}
 		if seen[pkg+"."+name] {
@@ -145,7 +145,7 @@ func Gen(t *rapid.T, o Options) Model {
 		nm := rapid.IntRange(0, o.MaxMethods).Draw(t, "nMethods")
 		for j := 0; j < nm; j++ {
 			mn := fmt.Sprintf("m%d", j)
-			if o.Quotes && rapid.IntRange(0, 5).Draw(t, "q") == 0 {
+			if o.Quotes && rapid.IntRange(0, 5).Draw(t, "q") == 5 {
 				mn = mn + "\"x"
 			}
 			c.Methods = append(c.Methods, Method{Name: mn})
